@@ -39,9 +39,23 @@ def build_file(case):
 
     RF, classes = fsup.mk_register_file(case["regs"], io=case.get("io"))
     data = RegisterData(DefaultRegister(data=""))
+    late = []
     for e in case["elems"]:
-        data.append(fsup.dec_relem(e, classes))
-    return RF, classes, RF(data=data)
+        if case.get("late_fill") and "cls" in e:
+            # the register enters the file without values, the file is written once, and the values
+            # are then filled in place (r.data[i] = v — what a property setter of a register type does)
+            r = classes[e["cls"]]()
+            late.append((r, [codec.dec_val(v) for v in e["data"]]))
+            data.append(r)
+        else:
+            data.append(fsup.dec_relem(e, classes))
+    f = RF(data=data)
+    if late:
+        f.write(StringIO())
+        for r, vals in late:
+            for i, v in enumerate(vals):
+                r.data[i] = v
+    return RF, classes, f
 
 
 def run_impl(case):
@@ -50,7 +64,7 @@ def run_impl(case):
         w = fsup.write_text(f, case.get("io"))
         if case.get("shape") == "skip_empty":
             return {"written": codec.enc_str(w)}
-        f2 = fsup.read_text(RF, w, case.get("io"))
+        f2 = fsup.read_text(RF, w, case.get("io"), *c04.text_linesize(case))
         cap = len(w) + 5
         return {"written": codec.enc_str(w), "reread": [fsup.enc_relem(e, classes) for e in fsup.capped(f2.data, cap)], "file_eq": bool(f == f2) and bool(f2 == f) and not (f != f2)}
     except Exception as e:
@@ -224,6 +238,10 @@ def random_case(rng, with_empty=False):
     if elems and "dflt" in elems[-1] and rng.random() < 0.3:
         elems[-1] = {"dflt": codec.enc_data(codec.dec_data(elems[-1]["dflt"]).rstrip("\n") or "x")}
     case = {"regs": regs, "elems": elems}
+    if rng.random() < 0.3:
+        case["linesize"] = rng.choice([2, 3, 16, 80])
+    if rng.random() < 0.2:
+        case["late_fill"] = True
     if with_empty:
         case["shape"] = "skip_empty"
     texts = [codec.dec_data(e["dflt"]) for e in elems if "dflt" in e]
